@@ -5,6 +5,7 @@
 # Prints the tail of the check's output; exit status is the check's.
 set -u
 C="$1"; DIFF="$(readlink -f "$2")"; TIER="${3:-quick}"; TAG="${4:-$$}"
+SRC="$(cd "$(dirname "$0")/.." && pwd)"   # the harness checkout this script belongs to (main or a builder worktree)
 R=/scratch/dt/r-$TAG; V=/scratch/dt/v-$TAG
 mkdir -p /scratch/dt
 git -C /repo worktree remove --force "$R" >/dev/null 2>&1
@@ -14,7 +15,7 @@ cleanup() { git -C /repo worktree remove --force "$R" >/dev/null 2>&1; rm -rf "$
 trap cleanup EXIT
 ( cd "$R" && git apply "$DIFF" ) || { echo "DETECT: patch does not apply"; exit 3; }
 mkdir -p "$V"
-( cd /verif && git ls-files -z --cached --others --exclude-standard | rsync -a --from0 --files-from=- ./ "$V"/ )
+( cd "$SRC" && git ls-files -z --cached --others --exclude-standard | rsync -a --from0 --files-from=- ./ "$V"/ )
 sed -i "s#=> /repo#=> $R#" "$V/go.mod"
 cd "$V" || exit 3
 export VERIF_REPO="$R" VERIF_ROOT="$V"
